@@ -2098,7 +2098,11 @@ static int32_t parse_XTA(ParserBuilder *aParserBuilder,
     {
         res = -1;
     }
-    ch->parse_end(res == 0);
+    // what a block of this kind leaves on the expression stack when it parses
+    const int results = (part == S_INVARIANT || part == S_EXPONENTIAL_RATE || part == S_EXPRESSION) ? 1
+                        : (part == S_EXPRESSION_LIST || part == S_PROPERTY)                          ? -1
+                                                                                                     : 0;
+    ch->parse_end(res == 0, results);
 
     ch = NULL;
     return res;
